@@ -224,6 +224,7 @@ where
             preprocessed_width,
             main_width: self.width(),
             num_public_values: self.num_public_values(),
+            num_periodic_columns: p3_air::BaseAir::<F>::num_periodic_columns(self),
             ..Default::default()
         };
         let mut builder = InteractionSymbolicBuilder::<F, EF>::new(layout);
